@@ -6,6 +6,7 @@ import (
 	"fmt"
 
 	"github.com/taurusgroup/multi-party-sig/internal/bip32"
+	"github.com/taurusgroup/multi-party-sig/internal/cborutil"
 	"github.com/taurusgroup/multi-party-sig/internal/ot"
 	"github.com/taurusgroup/multi-party-sig/internal/params"
 	"github.com/taurusgroup/multi-party-sig/internal/round"
@@ -26,6 +27,16 @@ type ConfigReceiver struct {
 	Public curve.Point
 	// ChainKey is the shared chain key.
 	ChainKey []byte
+}
+
+// UnmarshalCBOR restores a config (initialized with EmptyConfigReceiver) and validates it, so that corrupted
+// or incomplete data is reported as an error instead of yielding a config that breaks later protocol runs.
+func (c *ConfigReceiver) UnmarshalCBOR(data []byte) error {
+	type plain ConfigReceiver
+	if err := cborutil.Unmarshal(data, (*plain)(c)); err != nil {
+		return err
+	}
+	return c.Validate()
 }
 
 // Validate checks that the config contains everything a protocol run relies on, so that an incomplete
@@ -104,6 +115,15 @@ type ConfigSender struct {
 	Public curve.Point
 	// ChainKey is the shared chain key.
 	ChainKey []byte
+}
+
+// UnmarshalCBOR restores a config (initialized with EmptyConfigSender) and validates it.
+func (c *ConfigSender) UnmarshalCBOR(data []byte) error {
+	type plain ConfigSender
+	if err := cborutil.Unmarshal(data, (*plain)(c)); err != nil {
+		return err
+	}
+	return c.Validate()
 }
 
 // Validate checks that the config contains everything a protocol run relies on.
